@@ -25,6 +25,8 @@ type gen struct {
 	smallDocs bool
 	nested    bool // some documents carry nested elements (several rows under one ID)
 	oddTokens bool // group-by values that look like syntax of the persisted formats ("200|/api", "12|", ...)
+	lateDocs  bool // some documents are minutes to hours older than the fraction that receives them (late arrivals)
+	bigNums   bool // some documents carry a numeric field "big" with magnitudes beyond the int64 range
 }
 
 func newGen(seed uint64, stream string) *gen {
@@ -75,6 +77,9 @@ func (g *gen) doc(ts uint64) *model.Doc {
 	if g.r.Bool(0.3) {
 		d.Toks = append(d.Toks, model.Tok{F: "u", V: fmt.Sprintf("u%d", g.nextRID)})
 	}
+	if g.bigNums && g.r.Bool(0.5) {
+		d.Toks = append(d.Toks, model.Tok{F: "big", V: []string{"1e19", "2e19", "-3e19", "-1e19", "12345678901234567890123", "7", "-2"}[g.r.Intn(7)]})
+	}
 	if g.nested && g.r.Bool(0.4) {
 		for i, n := 0, g.r.Range(1, 3); i < n; i++ {
 			row := []model.Tok{{F: "n.a", V: vocab[g.r.Intn(len(vocab))]}}
@@ -102,6 +107,9 @@ func (g *gen) bulk(n int) Op {
 			ts = base - uint64(g.r.Intn(5000)) // out of order, in the past
 		default:
 			ts = base + uint64(g.r.Intn(2000))
+		}
+		if g.lateDocs && g.r.Bool(0.25) {
+			ts = base - uint64(g.r.Range(11*60000, 20*3600000)) // late arrival: the sealed form gets a time distribution
 		}
 		op.Docs = append(op.Docs, g.doc(ts))
 	}
@@ -194,6 +202,14 @@ func (g *gen) search(full bool) *Search {
 }
 
 func (g *gen) agg() simenv.AggReq {
+	if g.bigNums && g.r.Bool(0.4) {
+		// only order statistics: sums of such magnitudes depend on the order of floating-point additions
+		a := simenv.AggReq{Func: []string{"min", "max", "quantile"}[g.r.Intn(3)], Field: "big", GroupBy: []string{"svc", ""}[g.r.Intn(2)]}
+		if a.Func == "quantile" {
+			a.Quantiles = []float64{0, 0.5, 1}
+		}
+		return a
+	}
 	switch g.r.Intn(7) {
 	case 0:
 		return simenv.AggReq{Func: "count", GroupBy: "svc"}
